@@ -215,7 +215,7 @@ AMENDS = {'C02': [('text', 'a rejection triggers a product search for a concrete
   ('text', 'Proof: Grc.Code.check_sound', "Proof: Grc.Wr.binarySearchConstants_eq_searchConsts (the compiler's BinarySearchConstants loop, transcribed, yields for EVERY n the search header the decoders demand), Grc.Wr.beU16_write16 / beU32_write32 (the big-endian writers, transcribed, are read back by the decoders' readers as the value modulo the field width, for every value; T1: the text of these functions and of the WriteByte/Short/Int members is re-extracted on every run, WritersGen.*); Grc.Code.check_sound")],
  'C05': [('note', 'Not covered yet: m-unit scaling, glyph metrics/point()/box() in values,', "Scaled numbers (m / M suffix with a global MUnits) are generated and expected with the compiler's float arithmetic. Not covered yet: glyph metrics/point()/box() in values,"),
   ('text', '(overlapping classes, environments toggling AttributeOverride, boundary values)', '(overlapping classes, environments toggling AttributeOverride, boundary values; every sixth program on built-in collision.* / sequence.* attributes with a collision pass)')],
- 'C10': [('text', 'Tie: 33 single-fault injections', 'Tie: 42 single-fault injections'),
+ 'C10': [('text', 'Tie: 33 single-fault injections', 'Tie: 45 single-fault injections'),
   ('text', 'incl. slot references to inserted items in component references, attribute values and constraints)', 'incl. slot references to inserted items and to line-break items in selectors, associations, component references, attribute values and constraints, item number 0 with and without ANY padding)')],
  'C11': [('text', 'on a corpus of 33 past failures,', 'on a corpus of 46 past failures (incl. preprocessor arithmetic: division by zero in skipped operands, INT_MIN / -1, fatal buffer overflows; the death of gdlpp counts as a crash),')],
  'C12': [('text', 'fifteen program families (', "29 program families (padded rule slots (the 64-slot limit reached through another rule's leading context; above it the program MUST be rejected), script tags around 255/256, justification attribute ids beyond one byte, ligature components per glyph, FSM states around 65535, matched-rule entries around 65535, MaxRuleLoop / MaxBackup, ExtraAscent / ExtraDescent, feature setting values and hidden feature ids around 16 bits, Sill table bytes, glyph-attribute count around 65535/65536, "),
